@@ -238,7 +238,9 @@ class ToParquet(Expr):
         "write_metadata_file",
         "name_function",
         "write_kwargs",
+        "append",
     ]
+    _defaults = {"append": False}
 
     @property
     def _meta(self):
@@ -258,6 +260,7 @@ class ToParquet(Expr):
 
 class ToParquetData(Blockwise):
     _parameters = ToParquet._parameters
+    _defaults = ToParquet._defaults
 
     @property
     def io_func(self):
@@ -281,6 +284,7 @@ class ToParquetData(Blockwise):
 
 class ToParquetBarrier(Expr):
     _parameters = ToParquet._parameters
+    _defaults = ToParquet._defaults
 
     @property
     def _meta(self):
@@ -291,7 +295,9 @@ class ToParquetBarrier(Expr):
 
     def _layer(self):
         if self.write_metadata_file:
-            append = self.write_kwargs.get("append")
+            # ``append`` is a parameter of its own: it is not one of the
+            # ``write_kwargs`` handed to ``write_partition``
+            append = self.append
             compression = self.write_kwargs.get("compression")
             return {
                 (self._name, 0): (
@@ -539,6 +545,7 @@ def to_parquet(
                     {"compression": compression, "custom_metadata": custom_metadata},
                     extra_write_kwargs,
                 ),
+                append,
             )
         )
 
